@@ -254,6 +254,18 @@ static void fam_k7(int thorough) {	// hooks H1/H2: normalisation and window slid
 	(void)thorough;
 #endif
 }
+// The sanitizer build repeats the quick scope for memory errors; for this family (65-90 KB inputs at preset 6) it takes every 8th length only:
+// the off-by-a-few chunk-limit slips this family is after show up as failed assertions / wrong output in the optimised build, which takes every length.
+#if defined(__SANITIZE_ADDRESS__)
+#define K8_THIN 8
+#elif defined(__has_feature)
+#if __has_feature(address_sanitizer)
+#define K8_THIN 8
+#endif
+#endif
+#ifndef K8_THIN
+#define K8_THIN 1
+#endif
 static void fam_k8(int thorough) {	// LZMA2 chunk limits: chunks end because 2 MiB of input or 64 KiB of output is reached while the optimiser has read ahead
 	lzma_options_lzma *o = &OL[3];
 	for (int v = 0; v < 4; v++) { if (lzma_lzma_preset(o, v & 1 ? (6 | LZMA_PRESET_EXTREME) : 6)) continue; o->dict_size = 1 << 20;
@@ -261,8 +273,8 @@ static void fam_k8(int thorough) {	// LZMA2 chunk limits: chunks end because 2 M
 		// Input shape that keeps the normal-mode optimiser's read-ahead large when a chunk limit is reached: r random bytes containing 26 chained 150-byte blocks
 		// (400 bytes apart, each starting with the last 30 bytes of the previous one), then those blocks again overlapping by 30 bytes (a new 150-byte match starts
 		// every 120 bytes, all shorter than nice_len = 273), then more random data.  (a) random part first, (b) 5000 zero bytes first and the input ends with the overlaps.
-		for (int shape = 0; shape < 2; shape++) { if (!take()) continue; o->nice_len = 273;
-			for (size_t r = (shape ? 61000 : 65000); r <= (shape ? 62500 : 65700); r += (thorough ? 1 : 2)) { size_t z = shape ? 5000 : 0; uint8_t *p = inb + z; memset(inb, 0, z); uint32_t x = 2463534242u;
+		for (int shape = 0; shape < 2; shape++) { o->nice_len = 273;
+			for (size_t r = (shape ? 61000 : 65000); r <= (shape ? 62500 : 65700); r += (thorough ? 1 : 2) * K8_THIN) { if (!take()) continue; size_t z = shape ? 5000 : 0; uint8_t *p = inb + z; memset(inb, 0, z); uint32_t x = 2463534242u;
 				for (size_t i = 0; i < r; i++) { x ^= x << 13; x ^= x >> 17; x ^= x << 5; p[i] = (uint8_t)(x >> 9); }
 				for (size_t k = 1; k < 26; k++) memcpy(p + 1000 + 400 * k, p + 1000 + 400 * (k - 1) + 120, 30);
 				size_t n = z + r; memcpy(inb + n, p + 1000, 150); n += 150; for (size_t k = 1; k < 26; k++) { memcpy(inb + n, p + 1000 + 400 * k + 30, 120); n += 120; }
